@@ -77,6 +77,10 @@ func (c *VC) cur() *frame { return c.frames[len(c.frames)-1] }
 // initial heap constant, or (after a havoc of all heaps) a constant tied to the
 // havoc generation marker.
 func (c *VC) heapDefault(st *State, name string, s *Sort) *Term {
+	if c.heapSorts == nil {
+		c.heapSorts = map[string]*Sort{}
+	}
+	c.heapSorts[name] = s
 	// most specific generation marker first: this heap, its prefix class, all heaps
 	for _, k := range []string{"#gen:" + name, "#gen:HP_*", "#gen:HM*", "#gen"} {
 		if k == "#gen:HP_*" && !strings.HasPrefix(name, "HP_") {
@@ -200,6 +204,18 @@ func (c *VC) merge(a, b *State) *State {
 	}
 	for k := range b.heaps {
 		keys[k] = true
+	}
+	// heaps that neither state has materialised but whose default value differs between the two
+	// states (different havoc generations) must be merged explicitly
+	for hn, hs := range c.heapSorts {
+		if keys[hn] {
+			continue
+		}
+		da, db := c.heapDefault(a, hn, hs), c.heapDefault(b, hn, hs)
+		if !termEq(da, db) {
+			a.heaps[hn], b.heaps[hn] = da, db
+			keys[hn] = true
+		}
 	}
 	for _, k := range sortedKeys(keys) {
 		va, oka := a.heaps[k]
